@@ -249,8 +249,17 @@ theorem step_expr {n : Nat} (ih : AllGood n) (e : Expr) (hsz : sizeOf e < n + 1)
   | func pos variadic params bp body =>
     rw [okE] at hok
     have hb := ih.stmts body (by sz) hok
-    have hw := good_withFn pos variadic params (good_blockOf (body := body) hb)
-    unfold compileExpr; good
+    have hw := goodP_withFn pos variadic params (good_blockOf (body := body) hb)
+    unfold compileExpr
+    refine GoodP.bind hw fun r hr => ?_
+    obtain ⟨fn, ft⟩ := r
+    simp only
+    refine GoodP.bind (P := fun _ => True) (good_emitFreePtrs pos ft.frees) fun _ _ => ?_
+    split
+    · exact GoodP.throw_err
+    · rename_i hle
+      have := good_addFnConstant fn ⟨by omega, hr⟩
+      good
   | call pos ell f args =>
     rw [okE, Bool.and_eq_true] at hok
     have ha := ih.exprs args (by sz) hok.2
@@ -701,7 +710,8 @@ theorem good_compileProg (file : List Stmt) (hok : okSs file = true) : Good (com
   good
 
 theorem inv_initState (builtins : List (String × Nat)) (disabled : List String) : Inv (initState builtins disabled) := by
-  refine ⟨by simp [initState], ?_, Walk.refl 0, fun l hl => by simp [initState] at hl⟩
+  refine ⟨by simp [initState], ?_, Walk.refl 0, fun l hl => by simp [initState] at hl,
+    fun c hc => by simp [initState] at hc⟩
   intro t ht
   simp [initState] at ht
   subst ht
